@@ -152,7 +152,7 @@ func runC12(c *Ctx) {
 
 		skip := func(in ssa.Instruction) bool {
 			st, ok := in.(*ssa.Store)
-			if !ok || !Glob("var:int64", p.Desc(st.Addr)) {
+			if !ok || !isWatcherPosAddr(st.Addr) {
 				return false
 			}
 			// the increment that follows a successful decode: pos = decoded + 1 (block-local forwarding shows the decoded value)
@@ -204,7 +204,7 @@ func runC12(c *Ctx) {
 			posStore := func(in ssa.Instruction) bool {
 				st, ok := in.(*ssa.Store)
 
-				return ok && Glob("var:int64", p.Desc(st.Addr))
+				return ok && isWatcherPosAddr(st.Addr)
 			}
 			linIs := func(sel InstrPred, want ...string) InstrPred {
 				return func(in ssa.Instruction) bool {
@@ -254,7 +254,7 @@ func runC12(c *Ctx) {
 			dec1 := func(in ssa.Instruction) bool {
 				st, ok := in.(*ssa.Store)
 
-				return ok && Glob("var:int64", p.Desc(st.Addr)) && p.LinOf(st.Val, al).String() == "+1*P-1"
+				return ok && isWatcherPosAddr(st.Addr) && p.LinOf(st.Val, al).String() == "+1*P-1"
 			}
 			c.MustCut("R12.4", "pos-- ⊣ {pos > minPos}", f, dec1, CutSpec{Edges: p.LinEdge(al, "le:-1*P+1*max(+0,-1*C+1*G+1*W)+1")}, 1)
 			c.MustCut("R12.4", "pos-- ⊣ {TailEvents > 0}", f, dec1, CutSpec{Edges: p.LinEdge(al, "le:-1*T+1")}, 1)
@@ -335,7 +335,8 @@ func runC12(c *Ctx) {
 				for _, in := range Find(g, StoreToField("Event", "Bookmark")) {
 					n++
 
-					if !Glob("call:"+pkgInmem+".encodeBookmark((*free:var:int64-const:1))", p.Desc(in.(*ssa.Store).Val)) {
+					call, _ := CallOf(in.(*ssa.Store).Val)
+					if call == nil || p.CalleeName(call) != pkgInmem+".encodeBookmark" || p.LinOf(CallArgs(call)[0], al).String() != "+1*P-1" {
 						ok = false
 					}
 				}
